@@ -2,4 +2,4 @@ From Coq Require Import ExtrOcamlBasic.
 From MT Require Import DagFile.FlattenModel DagFile.PruneModel DagFile.CodecModel DagFile.ChronoModel DagFile.DagSpec.
 Extraction Language OCaml.
 Separate Extraction BinNums.N entries entries_stack make_pi_dag decide copy_pi_dag write_dag read_dag layout_wf
-  chrono_init chrono_step chrono_run choose_min n_running n_ready wf_root leaf_t1_sum.
+  chrono_init chrono_step chrono_run choose_min n_running n_ready wf_root t1_ok leaf_t1_sum.
